@@ -40,8 +40,45 @@ type CEnv struct {
 	allocBefore Tm
 	specDepth   int
 	noPure      bool
-	sides       *[]Tm // facts to be assumed inside the innermost enclosing quantifier
+	sides       *[]Tm // valid facts to be placed inside the innermost enclosing quantifier
+	pol         int   // polarity of the position being evaluated: +1 assumed, -1 to be proved, 0 unknown
 }
+
+// flipped returns a copy of e for a sub-expression of opposite polarity.
+func (e *CEnv) withPol(p int) *CEnv {
+	n := *e
+	n.pol = p
+	return &n
+}
+
+// quantBody combines a quantifier body with the valid side facts collected while
+// evaluating it: conjoined when the formula is assumed, antecedent when it is to be
+// proved, dropped when the polarity is unknown (always sound).
+func (e *CEnv) quantBody(guard Tm, sides []Tm, body Tm, universal bool) Tm {
+	s := and(sides...)
+	pol := e.pol
+	if !universal {
+		pol = -pol
+	}
+	switch {
+	case pol > 0 && universal:
+		return implies(guard, and(s, body))
+	case pol < 0 && universal:
+		return implies(and(guard, s), body)
+	case pol > 0 && !universal: // exists, to be proved: exists i. guard && s && body  (s valid)
+		return and(guard, body)
+	case pol < 0 && !universal: // exists, assumed: exists i. guard && body && s
+		return and(guard, body, s)
+	}
+	if universal {
+		return implies(guard, body)
+	}
+	return and(guard, body)
+}
+
+// hyp / goal evaluate a clause in assumed / to-be-proved position.
+func (e *CEnv) hyp(c Clause) Tm  { return e.withPol(1).evalBool(c) }
+func (e *CEnv) goal(c Clause) Tm { return e.withPol(-1).evalBool(c) }
 
 func (e *CEnv) sub() *CEnv {
 	n := *e
@@ -195,6 +232,9 @@ func (e *CEnv) eval(ex ast.Expr) *Val {
 	case *ast.Ident:
 		return e.ident(n.Name)
 	case *ast.UnaryExpr:
+		if n.Op == token.NOT {
+			return boolVal(not(e.withPol(-e.pol).eval(n.X).S))
+		}
 		a := e.eval(n.X)
 		switch n.Op {
 		case token.NOT:
@@ -507,11 +547,23 @@ func (e *CEnv) binary(n *ast.BinaryExpr) *Val {
 	m := e.st.m
 	switch n.Op {
 	case token.LAND:
-		return boolVal(and(e.eval(n.X).S, e.eval(n.Y).S))
+		l := e.eval(n.X)
+		if l.S.S == "false" {
+			return l // short circuit: the right operand may not be evaluable
+		}
+		return boolVal(and(l.S, e.eval(n.Y).S))
 	case token.LOR:
-		return boolVal(or(e.eval(n.X).S, e.eval(n.Y).S))
+		l := e.eval(n.X)
+		if l.S.S == "true" {
+			return l
+		}
+		return boolVal(or(l.S, e.eval(n.Y).S))
 	}
-	a, b := e.eval(n.X), e.eval(n.Y)
+	sube := e
+	if n.Op == token.EQL || n.Op == token.NEQ {
+		sube = e.withPol(0)
+	}
+	a, b := sube.eval(n.X), sube.eval(n.Y)
 	// constant folding
 	if a.C != nil && b.C != nil {
 		r := new(big.Int)
@@ -716,13 +768,19 @@ func (e *CEnv) call(n *ast.CallExpr) *Val {
 		}
 		return &Val{T: t, K: KInt, S: m.convert(a.S, e.intInfoOf(a), ti)}
 	case "implies":
-		a := e.args(n, 2, "implies")
-		return boolVal(implies(a[0].S, a[1].S))
+		if len(n.Args) != 2 {
+			e.errf("implies expects 2 arguments")
+		}
+		a0 := e.withPol(-e.pol).eval(n.Args[0])
+		if a0.S.S == "false" {
+			return boolVal(tTrue) // the consequent may not be evaluable (e.g. speaks about an event that was not emitted)
+		}
+		return boolVal(implies(a0.S, e.eval(n.Args[1]).S))
 	case "iff":
-		a := e.args(n, 2, "iff")
+		a := e.withPol(0).args(n, 2, "iff")
 		return boolVal(eq(a[0].S, a[1].S))
 	case "ite":
-		a := e.args(n, 3, "ite")
+		a := e.withPol(0).args(n, 3, "ite")
 		x1, x2 := a[1], a[2]
 		if x1.C != nil && x2.C == nil {
 			x1 = e.typed(x1, x2.T)
@@ -766,9 +824,9 @@ func (e *CEnv) call(n *ast.CallExpr) *Val {
 		body := sub.eval(n.Args[3])
 		rng := and(m.le(lo, bv.S), m.lt(bv.S, hi))
 		if fname == "forall" {
-			return boolVal(tm(SBool, "(forall ((%s %s)) (=> %s %s))", bn, m.idx(), and(append([]Tm{rng}, sides...)...).S, body.S.S))
+			return boolVal(tm(SBool, "(forall ((%s %s)) %s)", bn, m.idx(), e.quantBody(rng, sides, body.S, true).S))
 		}
-		return boolVal(tm(SBool, "(exists ((%s %s)) (and %s %s))", bn, m.idx(), and(append([]Tm{rng}, sides...)...).S, body.S.S))
+		return boolVal(tm(SBool, "(exists ((%s %s)) %s)", bn, m.idx(), e.quantBody(rng, sides, body.S, false).S))
 	case "forallint":
 		if len(n.Args) != 2 {
 			e.errf("forallint(i, P) expects 2 arguments")
@@ -780,7 +838,7 @@ func (e *CEnv) call(n *ast.CallExpr) *Val {
 		var sides []Tm
 		sub.sides = &sides
 		body := sub.eval(n.Args[1])
-		return boolVal(mkForall(fmt.Sprintf("(%s %s)", bn, m.idx()), implies(and(sides...), body.S)))
+		return boolVal(mkForall(fmt.Sprintf("(%s %s)", bn, m.idx()), e.quantBody(tTrue, sides, body.S, true)))
 	case "forallv":
 		// forallv(x, T, P): for all values x of Go type T
 		if len(n.Args) != 3 {
@@ -801,7 +859,7 @@ func (e *CEnv) call(n *ast.CallExpr) *Val {
 		var sides []Tm
 		sub.sides = &sides
 		body := sub.eval(n.Args[2])
-		return boolVal(mkForall(strings.Join(bvs, " "), implies(and(sides...), body.S)))
+		return boolVal(mkForall(strings.Join(bvs, " "), e.quantBody(tTrue, sides, body.S, true)))
 	case "bytype":
 		// bytype(x, "T1", e1, "T2", e2, ...): static dispatch on the Go type of x
 		if len(n.Args) < 3 || len(n.Args)%2 != 1 {
@@ -845,7 +903,7 @@ func (e *CEnv) call(n *ast.CallExpr) *Val {
 		var sides []Tm
 		sub.sides = &sides
 		body := sub.eval(n.Args[1])
-		return boolVal(mkForall(fmt.Sprintf("(%s Int)", bn), implies(and(sides...), body.S)))
+		return boolVal(mkForall(fmt.Sprintf("(%s Int)", bn), e.quantBody(tTrue, sides, body.S, true)))
 	case "panicked":
 		return boolVal(boolTm(e.panicked))
 	case "panicval":
@@ -883,6 +941,17 @@ func (e *CEnv) call(n *ast.CallExpr) *Val {
 		return boolVal(and(eq(r.Fs[1].S, m.add(l1, l2)), e.seqEq(pre, s1), e.seqEq(suf, s2)))
 	case "nemitted":
 		return e.intConst(big.NewInt(int64(len(st.trace) - e.traceBase)))
+	case "count":
+		// count("Short"): number of events of this call whose callee is Short
+		name := e.strArg(n.Args[0])
+		k := 0
+		for i := e.traceBase; i < len(st.trace); i++ {
+			ev := &st.trace[i]
+			if ev.Short == name || strings.HasSuffix(ev.Callee, "."+name) || ev.Callee == name {
+				k++
+			}
+		}
+		return e.intConst(big.NewInt(int64(k)))
 	case "evis":
 		// evis(k, "Short") : the k-th event of this call is a call of Short
 		if len(n.Args) != 2 {
@@ -1075,7 +1144,7 @@ func (e *CEnv) applySpec(sf *SpecFunc, n *ast.CallExpr) *Val {
 		e.errf("spec func recursion too deep at %s", sf.Name)
 	}
 	sub := &CEnv{x: e.x, st: e.st, vars: map[string]*Val{}, bound: map[string]*Val{}, pkg: sf.Pkg, contract: e.contract,
-		oldHeap: e.oldHeap, curHeap: e.curHeap, inOld: e.inOld, traceBase: e.traceBase, specDepth: e.specDepth + 1, allocBefore: e.allocBefore, sides: e.sides, noPure: e.noPure}
+		oldHeap: e.oldHeap, curHeap: e.curHeap, inOld: e.inOld, traceBase: e.traceBase, specDepth: e.specDepth + 1, allocBefore: e.allocBefore, sides: e.sides, noPure: e.noPure, pol: e.pol}
 	if sf.Pkg == "" {
 		sub.pkg = e.pkg
 	}
@@ -1125,6 +1194,9 @@ func (e *CEnv) seqEq(a, b *Val) Tm {
 // ghosts
 
 func (x *Exec) ghostKeySort(m Mode, k string) Sort {
+	if strings.HasPrefix(k, "*") {
+		return SInt
+	}
 	switch k {
 	case "ref", "addr":
 		return SInt
@@ -1151,7 +1223,11 @@ func (x *Exec) ghostSort(m Mode, gd *GhostDecl) Sort {
 func ghostIsConst(gd *GhostDecl) bool { return strings.Contains(gd.Result, "const") }
 
 func (e *CEnv) ghostKeyTerm(gd *GhostDecl, i int, v *Val) Tm {
-	switch gd.Keys[i] {
+	kk := gd.Keys[i]
+	if strings.HasPrefix(kk, "*") {
+		kk = "ref"
+	}
+	switch kk {
 	case "ref", "addr":
 		switch v.K {
 		case KPtr, KChan, KMap:
@@ -1185,6 +1261,9 @@ func (e *CEnv) ghostArray(gd *GhostDecl) Tm {
 }
 
 func (e *CEnv) ghostResult(gd *GhostDecl, t Tm) *Val {
+	if r := strings.Fields(gd.Result)[0]; strings.HasPrefix(r, "*") {
+		return &Val{T: e.x.resolveType(gd.Pkg, r), K: KPtr, S: t}
+	}
 	switch strings.Fields(gd.Result)[0] {
 	case "bool":
 		return boolVal(t)
@@ -1248,6 +1327,9 @@ func (e *CEnv) ghostUpdate(fname string, n *ast.CallExpr) *Val {
 }
 
 func (e *CEnv) typedGhostVal(gd *GhostDecl, v *Val) Tm {
+	if strings.HasPrefix(strings.Fields(gd.Result)[0], "*") {
+		return v.S
+	}
 	switch strings.Fields(gd.Result)[0] {
 	case "int":
 		return e.x.toIdx(e.st, e.typed(v, types.Typ[types.Int]))
